@@ -80,6 +80,10 @@ class Add(Conclusion[T]):
     def _evaluate__(self, sources: Optional[Dict[int, HashedValue]] = None,
                     yield_when_false: bool = False) -> Dict[int, HashedValue]:
         self._yield_when_false_ = False
-        v = next(iter(self.value._evaluate__(sources)))[self.value._id_]
-        sources[self.var._var_._id_] = v
+        v = next(iter(self.value._evaluate__(sources)), None)
+        if v is None:
+            # the value has nothing to be computed from for this match (an element of an empty collection): nothing
+            # is concluded for it.
+            return sources
+        sources[self.var._var_._id_] = v[self.value._id_]
         return sources
